@@ -178,8 +178,17 @@ def _hv(T, m): return find(T['farming'], ['Harvester', m])
 
 def a_loadFullAccessExtended(T): return _b(_arg_of(_hv(T, 'load_full_ds'), 'os.access', 'self.data_name'))
 def a_loadFullIsfileExtended(T): return _b(_arg_of(_hv(T, 'load_full_ds'), 'os.path.isfile', 'self.data_name'))
-def a_saveFullExistsExtended(T): return _b(_arg_of(_hv(T, 'save_full_ds'), 'os.path.exists', 'self.data_name'))
-def a_saveFullRemoveExtended(T): return _b(_arg_of(_hv(T, 'save_full_ds'), 'os.remove', 'self.data_name'))
+def _save_full_target(T, legacy):
+    """the name whose old content save_full_ds gets rid of: since the atomic rewrite it is the target of os.replace
+    (the old file is replaced, not probed and removed); before that it was the argument of os.path.exists / os.remove"""
+    f = _hv(T, 'save_full_ds')
+    if _calls(f, 'os.replace'):
+        return _b(_arg_of(f, 'os.replace', 'self.data_name', which=1))
+    return _b(_arg_of(f, legacy, 'self.data_name'))
+
+
+def a_saveFullExistsExtended(T): return _save_full_target(T, 'os.path.exists')
+def a_saveFullRemoveExtended(T): return _save_full_target(T, 'os.remove')
 def a_deleteRemoveExtended(T): return _b(_arg_of(_hv(T, 'delete_ds'), 'os.remove', 'self.data_name'))
 
 
